@@ -275,7 +275,7 @@ def cleanup_then_fault(lab, mon, case, struct, rng, tier):
                 context.add_cleanup(bad_cleanup)
         return plug, first
     plug, first = make_plug()
-    saved = lab.extra_hook_plugins
+    saved = getattr(lab, "extra_hook_plugins", None)
     lab.extra_hook_plugins = list(saved or []) + [plug]
     try:
         obs1 = lab.run(case["program"], args=case["args"])
@@ -327,7 +327,7 @@ def failfast_fault(lab, mon, case, struct, owner0, H0, k, scope, exc="Exception"
         if name == "after_scenario" and elem.status.has_failed():
             target = getattr(context, "rule", None) if scope == "rule" else None
             (target or context.feature).skip(reason="fail fast")
-    saved = lab.extra_hook_plugins
+    saved = getattr(lab, "extra_hook_plugins", None)
     lab.extra_hook_plugins = list(saved or []) + [skip_rest]
     try:
         obs = lab.run(case["program"], args=case["args"], hook_fault=fault)
